@@ -162,6 +162,15 @@ def gen_tables(ctx):
         sniffer_sites[f"{nm_}._get_image_pixel_dimensions(image_data) exists"] = fn_ is not None and \
             list(inspect.signature(fn_).parameters) == ["image_data"]
         sniffer_sites[f"{nm_}.{loop} calls it"] = hasattr(m_, loop) and "_get_image_pixel_dimensions" in _calls(getattr(m_, loop))
+    from sharepoint2text.parsing.extractors.ms_legacy import xls_extractor as xe_
+    xc = _calls(xe_._extract_images_from_workbook)
+    for callee in ("detect_image_type", "wrap_dib_as_bmp", "get_image_dimensions", "sha1"):
+        sniffer_sites[f"xls._extract_images_from_workbook calls {callee}"] = callee in xc
+    sniffer_sites["image_utils.BLIP_TYPE_EMF/WMF/DIB are the modelled record types"] = (
+        (iu.BLIP_TYPE_EMF, iu.BLIP_TYPE_WMF, iu.BLIP_TYPE_DIB) == (61466, 61467, 61471))
+    sniffer_sites["image_utils signatures are the modelled ones"] = (
+        iu.JPEG_SIGNATURE == bytes([255, 216, 255]) and iu.GIF_SIGNATURE == b"GIF8" and iu.BMP_SIGNATURE == b"BM"
+        and iu.PNG_SIGNATURE == bytes([137, 80, 78, 71, 13, 10, 26, 10]) and iu.TIFF_LE_SIGNATURE == b"II*\x00" and iu.TIFF_BE_SIGNATURE == b"MM\x00*")
     anchor_ids = {xx.XDR_ONE_CELL_ANCHOR: 0, xx.XDR_TWO_CELL_ANCHOR: 1, xx.XDR_ABSOLUTE_ANCHOR: 2}
     pair = lambda a, b: f"({a}, {b})"
     t = "(* GENERATED on every check run from the live modules of the repo under test — do not edit. *)\n"
@@ -465,7 +474,14 @@ def gen_spec(ctx, fmt, idx):
         elif r_ext < 0.27 and fmt in ("docx", "pptx", "xlsx"):
             # an extension that names ANOTHER raster format than the bytes (a PNG stored as image1.jpeg)
             ext_, misleading_ext = rng.choice([e for k_, e in Wr.EXT.items() if k_ != kind]), True
-        part = f"{d}/{sub}image{i + 1}.{ext_}"
+        # member names with characters that are ordinary in a part name / URL path but special to some decoder
+        # (form decoding turns '+' into a space, '&' ';' '=' split queries, quotes and parentheses need no escaping)
+        stem = f"image{i + 1}"
+        if rng.random() < 0.25:
+            stem = rng.choice(["a+b_plot", "R&D", "it's", "plot(1)", "x,y;z=1", "me@home~!$", "1+1=2", "C++"]) + str(i + 1)
+        if sub and rng.random() < 0.3:
+            sub = rng.choice(["C++/", "a&b/", "v1,2/"])
+        part = f"{d}/{sub}{stem}.{ext_}"
         data = Wr.MAKERS[kind](min(w, 8), min(h, 8), idx * 7 + i)
         # patch the declared size into the header so that sizes vary without big pixel data
         if kind == "png":
@@ -477,6 +493,7 @@ def gen_spec(ctx, fmt, idx):
         else:
             data = Wr.jpeg(w, h, idx * 7 + i, app_segments=rng.randint(0, 2))
         media.append({"part": part, "kind": kind, "w": w, "h": h, "data": data + b"#%d.%d" % (idx, i), "present": True,
+                      "manifest": rng.choice(["typed", "typed", "empty", "generic", "absent"]),
                       "unknown_ext": unknown_ext, "misleading_ext": misleading_ext})
     # duplicate member name: an earlier archive entry of the same name with other bytes (the name designates the LAST entry)
     if media and rng.random() < 0.12:
@@ -490,8 +507,16 @@ def gen_spec(ctx, fmt, idx):
         ma = media[a]
         dirn, base = ma["part"].rsplit("/", 1)
         how = rng.choice(["case", "case", "nfc", "space"])
+        if how == "nfc" and "image" not in base:
+            how = "case"
         if how == "case":
-            tb = base[0].upper() + base[1:]
+            k_ = next((k for k, c in enumerate(base.rsplit(".", 1)[0]) if c.isalpha()), None)
+            if k_ is None:
+                how = "space"
+            else:
+                tb = base[:k_] + base[k_].swapcase() + base[k_ + 1:]
+        if how == "case":
+            pass
         elif how == "nfc":
             ma["part"] = dirn + "/" + base.replace("image", "imag\u00e9")
             tb = base.replace("image", "image\u0301")
@@ -515,7 +540,7 @@ def gen_spec(ctx, fmt, idx):
               "xlsx": ["rel"] * 5 + ["parent", "abs", "dot", "updown", "missing"],
               "epub": ["rel"] * 5 + ["abs", "dot", "missing", "parent"],
               }.get(fmt, ["rel"] * 6 + ["dot", "updown", "middot", "dslash", "missing", "external"])
-    spec = {"fmt": fmt, "media": media, "units": [], "idx": idx}
+    spec = {"fmt": fmt, "media": media, "units": [], "idx": idx, "ct_mode": rng.choice(["defaults", "defaults", "overrides", "none"])}
     if fmt == "epub":
         spec["opf"] = rng.choice(["OEBPS/content.opf", "OEBPS/content.opf", "OEBPS/pkg/content.opf", "content.opf"])
     if fmt == "pptx":
@@ -991,6 +1016,96 @@ def pdfs(ctx):
     ctx.extra["pdf_cases"] = len(cases)
 
 
+# ------------------------------------------------------------------------------------ legacy BLIP images (XLS)
+TYPE_ID = {"image/png": 0, "image/jpeg": 1, "image/gif": 2, "image/bmp": 3, "image/tiff": 4, "image/x-emf": 5, "image/x-wmf": 6}
+
+
+def legacy_xls(ctx):
+    """Workbook streams made of WELL-FORMED back-to-back BLIP records (so the walk is the identity on them: the
+    generator knows the slices; hostile streams are C01's business and run watchdogged there) in a CFB container.
+    Oracle: every embedded PNG/JPEG/GIF/BMP is returned once, bit-exact, with its type, numbered 1..n in stream order;
+    a DIB comes back as a BMP file whose tail is the DIB.  Correspondence: Model.xls_stage vs the implementation."""
+    import struct
+    from props import c08_writers
+    from sharepoint2text.parsing.extractors.ms_legacy import xls_extractor as xe
+    from sharepoint2text.parsing.extractors.util import image_utils as iu
+    rng = ctx.rng
+    zb = Wr_zbytes
+    oz = lambda v: "None" if v is None else f"(Some {coq_Z(v)})"
+    # detect_image_type alone, on the header stream of the sniffer correspondence
+    dcases = []
+    for d, _ in gen_headers(ctx, ctx.n(250, 2500)):
+        r = iu.detect_image_type(d)
+        dcases.append(f"({zb(d)}, {coq_Z(TYPE_ID.get(r[1], 99) if r else -1)})")
+    okd, fd, logd = coq_eval_shards(ctx, "detect", "From Coq Require Import ZArith List.\nImport ListNotations.\n"
+                                    "From S2T Require Import Lib.PyStr C01.Loops C14.Model C14.Corr.\n", "corr_detect", dcases, shard=250, ty="list Z * Z")
+    ctx.traces += len(dcases)
+    ctx.obligation("correspondence:detect_type == image_utils.detect_image_type", okd and not fd, (f"{len(fd)} disagreements " + logd)[:800])
+    cases, info = [], []
+    for idx in range(ctx.n(60, 500)):
+        recs, truth = [], []                     # truth: (kind, bytes expected back, is_dib)
+        pool = []
+        for j in range(rng.randint(0, 5)):
+            r = rng.random()
+            if r < 0.6 or (r < 0.7 and not pool):
+                kind = rng.choice(["png", "jpeg", "gif", "bmp"])
+                w, h = rng.randint(1, 40), rng.randint(1, 40)
+                img = (Wr.jpeg(w, h, idx + j) if kind == "jpeg" else Wr.MAKERS[kind](min(w, 4), min(h, 4), idx + j)) + b"#x%d.%d" % (idx, j)
+                rt = {"png": 0xF01E, "jpeg": 0xF01D, "gif": 0xF01E, "bmp": 0xF01F}[kind]
+                pool.append((rt, img))
+            elif r < 0.7:
+                rt, img = rng.choice(pool)        # the same picture again (shared): deduplicated by sha1
+            elif r < 0.8:
+                dib = Wr.bmp(rng.randint(1, 5), rng.randint(1, 5), idx + j)[14:]
+                rt, img = 0xF01F, dib
+            elif r < 0.9:
+                rt, img = rng.choice([0xF01A, 0xF01B]), b"\x01\x00\x00\x00" + bytes(rng.randrange(256) for _ in range(rng.randint(8, 30)))
+            else:
+                rt, img = rng.choice([0xF01C, 0xF029, 0xF01E]), bytes(rng.randrange(1, 255) for _ in range(rng.randint(1, 20)))
+            inst, hdr = rng.choice([(0x6E0, 17), (0x6E1, 33), (0x46A, 17), (0x46B, 33), (0x7A8, 17)])
+            payload = bytes(rng.randrange(256) for _ in range(hdr)) + img
+            recs.append(struct.pack("<HHI", (inst << 4), rt, len(payload)) + payload)
+            truth.append((rt, img))
+        stream = b"".join(recs)
+        ole = c08_writers.cfb([("Workbook", stream)])
+        try:
+            imgs = xe._extract_images_from_workbook(io.BytesIO(ole))
+        except Exception as e:  # noqa
+            ctx.finding(f"xls-images-raise:{type(e).__name__}", f"XLS: _extract_images_from_workbook raised {e!r} on well-formed BLIP records",
+                        {"workbook_stream": stream})
+            continue
+        ctx.case(("xls-blip", stream), bool(truth), kind="xls-blip:" + str(len(truth)))
+        replay = {"format": "xls (CFB with a Workbook stream of BLIP records)", "package": ole, "workbook_stream": stream}
+        got = [(i.image_index, i.content_type, bytes(i.data), i.width, i.height) for i in imgs]
+        # property oracle
+        want, seen_ = [], set()
+        for rt, img in truth:
+            k_ = next((k for k, s_ in (("png", b"\x89PNG"), ("jpeg", b"\xff\xd8\xff"), ("gif", b"GIF8"), ("bmp", b"BM")) if img.startswith(s_)), None)
+            if k_ and len(img) >= 8 and sha(img) not in seen_:
+                seen_.add(sha(img))
+                want.append((Wr.CTYPE[k_], img))
+        got_raster = [(ct, b) for _, ct, b, _, _ in got if ct in ("image/png", "image/jpeg", "image/gif") or (ct == "image/bmp" and (ct, b) in want)]
+        if got_raster != want:
+            ctx.finding("xls-blip-images", f"XLS: the Workbook stream embeds {[(c, len(b)) for c, b in want]} (type, size; stream order, "
+                        f"shared pictures once) but {[(c, len(b)) for c, b in got_raster]} come back", replay)
+        if [n for n, *_ in got] != list(range(1, len(got) + 1)):
+            ctx.finding("xls-blip-numbering", f"XLS: image numbers {[n for n, *_ in got]}", replay)
+        for rt, img in truth:                     # a DIB record comes back as a BMP file ending in the DIB
+            if rt == 0xF01F and not img.startswith(b"BM") and len(img) >= 40 and not any(b.endswith(img) and b[:2] == b"BM" and len(b) == len(img) + 14 for _, _, b, _, _ in got):
+                ctx.finding("xls-blip-dib", "XLS: a DIB BLIP is not returned as BMP header + the DIB bytes", replay)
+        cases.append("(" + coq_list([f"({coq_Z(rt)}, {zb(img)})" for rt, img in truth]) + ", "
+                     + coq_list([f"({coq_Z(n)}, {coq_Z(TYPE_ID.get(ct, 99))}, {zb(b)}, ({oz(w)}, {oz(h)}))" for n, ct, b, w, h in got]) + ")")
+        info.append(stream.hex()[:80])
+    ok, failing, log = coq_eval_shards(ctx, "xlsstage", "From Coq Require Import ZArith List.\nImport ListNotations.\n"
+                                       "From S2T Require Import Lib.PyStr C01.Loops C14.Model C14.Corr.\n", "corr_xls", cases, shard=150,
+                                       ty="list (Z * list Z) * list (Z * Z * list Z * (option Z * option Z))")
+    ctx.traces += len(cases)
+    ctx.disagreements += len(failing)
+    ctx.obligation("correspondence:xls_stage (detect, DIB wrap, sha1 dedup, numbering, sizes) == xls_extractor._extract_images_from_workbook",
+                   ok and not failing, (f"{len(failing)} disagreements, first stream: {info[failing[0]] if failing else ''} " + log)[:1000])
+    ctx.extra["xls_blip_cases"] = len(cases)
+
+
 # ------------------------------------------------------------------------------------ fixtures: view laws
 def canon_table(tb):
     """cells compared as text (XlsUnit stringifies the cells of the sheet table it copies)"""
@@ -1071,14 +1186,15 @@ def run(ctx):
         "anchors in document order / sheets by position, content type from bytes); the selected variant is validated by the "
         "correspondence on every case, the property oracle does not depend on it (evidence: model_variants_selected_by_probes)",
         "NOT covered: PDF codecs JPX/CCITT/JBIG2 (no encoder in the harness; their bytes pass through like DCT), raw-sample images are "
-        "only labelled-checked; detect_image_type and mimetypes.guess_type are oracles; RTF \\pict and legacy DOC/PPT/XLS BLIP images "
+        "only labelled-checked; mimetypes.guess_type and hashlib.sha1 are oracles; RTF \\pict and the legacy DOC/PPT image walks (PPT shares the XLS image stage, on another record walk) "
         "are exercised by fixtures only; ODF/XLSX display-size vs pixel-size semantics are recorded as open findings, not modelled",
         "testing infrastructure: tools/props/c14_writers.py (image files, OOXML/ODF/EPUB package writers)",
     ]
     ctx.assumptions += ["media bytes are opaque values (type parameter) in the numbering/pass-through theorems",
                         "document order of PPTX/ODP shapes = the position order the extractors sort by (the generator lays shapes out top to bottom)"]
     gen_tables(ctx)
-    ctx.prove("C14/Props.v", ["C14/ProofsPath.vo", "C14/ProofsSniff.vo", "C14/ProofsNum.vo", "C14/ProofsPass.vo"], expected=[
+    ctx.prove("C14/Props.v", ["C14/ProofsPath.vo", "C14/ProofsSniff.vo", "C14/ProofsNum.vo", "C14/ProofsPass.vo", "C14/ProofsLegacy.vo"], expected=[
+        "C14_detect_type_wellformed", "C14_wrap_dib_passthrough", "C14_xls_images",
         "C14_odt_numbers", "C14_odt_no_second_copy", "C14_odg_numbers", "C14_odt_order_refuted", "C14_odt_order_partial", "C14_odf_placeholders_refuted",
         "C14_ooxml_content_type", "C14_xlsx_content_type", "C14_content_type_unknown_extension_refuted", "C14_content_type_bytes_fallback",
         "C14_resolve_correct", "C14_resolve_relative", "C14_resolve_parent", "C14_resolve_absolute", "C14_resolve_dot_segments",
@@ -1096,6 +1212,7 @@ def run(ctx):
     packages(ctx)
     pdfs(ctx)
     env_dimension(ctx)
+    legacy_xls(ctx)
     fixtures(ctx)
 
 
@@ -1112,7 +1229,7 @@ META = {
                   "document views coincide for page/slide/sheet formats (XLSX tables: refuted on empty sheets, partial otherwise). "
                   "Refuted with witnesses: legacy pptx/docx/xlsx/epub resolvers, legacy verbatim ODF hrefs and ODS counter gap, per-slide restart. "
                   "Validated only (differential): the eight per-format pipelines, content types, fixtures; PDF/RTF images not modelled.",
-    "level_note": "Not modelled (third party / no encoder): pypdf stream decoding, JPX/CCITT/JBIG2 codecs, RTF and legacy BLIP images (fixtures only). "
+    "level_note": "Not modelled (third party / no encoder): pypdf stream decoding, JPX/CCITT/JBIG2 codecs, RTF and legacy DOC/PPT images (fixtures only; XLS BLIP stage is modelled on C01's record walk). "
                   "Trusted: Coq kernel+VM; the G-dump/AST site scan; hand-written models validated differentially; zipfile, "
                   "ElementTree, mimetypes, openpyxl, pypdf as oracles; the package writers of the harness.",
 }
